@@ -352,6 +352,19 @@ func (c *SpecCtx) bin(n *EBin) TV {
 	case "==", "!=":
 		a, b = c.derefArrayPtr(a, b)
 		a, b = c.unifyNil(a, b)
+		// a nested struct field is held as a pointer to its instance: compared with a struct value, it is loaded
+		if a.T != nil && b.T != nil {
+			if _, isS := b.V.(StructV); isS {
+				if p, ok := a.T.Underlying().(*types.Pointer); ok && types.Identical(p.Elem(), b.T) {
+					a = c.structValue(a)
+				}
+			}
+			if _, isS := a.V.(StructV); isS {
+				if p, ok := b.T.Underlying().(*types.Pointer); ok && types.Identical(p.Elem(), a.T) {
+					b = c.structValue(b)
+				}
+			}
+		}
 		if a.T != nil && b.T != nil && a.T != mathInt && b.T != mathInt && a.T != mathBool && b.T != mathBool {
 			// an interface value is a box: comparing it with a concrete value is a specification error
 			// (it would silently compare the box identity), use unbox(x, "T")
@@ -527,6 +540,9 @@ func (c *SpecCtx) object(obj types.Object) TV {
 		if g == nil {
 			c.fail("no global %s", o.Name())
 		}
+		if t, isS := c.e.sentinelConst(g); isS {
+			return TV{Sc{t}, o.Type()}
+		}
 		ref := c.e.val(g).(Sc).T
 		if shapeKindOf(o.Type()) == kStruct || shapeKindOf(o.Type()) == kArrayOfComposite {
 			// struct-typed globals are kept as pointers to their storage (fields are then selected through it)
@@ -550,6 +566,11 @@ func (c *SpecCtx) ssaName(name string) (TV, bool) {
 		}
 		if isAddr {
 			pt := v.Type().Underlying().(*types.Pointer)
+			if g, isGlobal := v.(*ssa.Global); isGlobal {
+				if t, isS := c.e.sentinelConst(g); isS {
+					return TV{Sc{t}, pt.Elem()}, true
+				}
+			}
 			if _, isGlobal := v.(*ssa.Global); isGlobal && (shapeKindOf(pt.Elem()) == kStruct || shapeKindOf(pt.Elem()) == kArrayOfComposite) {
 				// struct-typed package variables are kept as pointers to their storage, as in object()
 				return TV{val, v.Type()}, true
